@@ -150,15 +150,18 @@ fn start(ops: &[Op], tag: &str) -> Result<Running, String> {
         let port = free_port();
         let (app, tx) = build(ops, tag, 3);
         let (mtx, mrx) = channel::<Event>();
-        let app = app.with_monitor(MonitorConfig::new(mtx).with_subscription_to(EventType::ConnectionSuccess));
+        let app = app.with_monitor(monitor_for(mtx));
         let addr = format!("127.0.0.1:{}", port);
         let handle = thread::spawn(move || app.run(addr).is_ok());
         let deadline = Instant::now() + Duration::from_secs(15);
         let sa: SocketAddr = format!("127.0.0.1:{}", port).parse().unwrap();
         let mut ok = false;
-        // Ready means: OUR app reported (MonitorConfig, ConnectionSuccess) that it accepted OUR probe connection.
-        // A successful connect alone proves nothing: when the port was taken between free_port() and the bind
-        // inside App::run, the connect reaches somebody else's listener while our thread has not failed yet.
+        // Ready means: OUR app listens on the port. A successful connect alone proves nothing (when the port was
+        // taken between free_port() and the bind inside App::run, the connect reaches somebody else's listener while
+        // our thread has not failed yet). Confirmation, whichever comes first:
+        //  - the app reports (MonitorConfig, ConnectionSuccess) that it accepted OUR probe connection, or
+        //  - the listening socket on the port belongs to this process (/proc) - monitor events are not part of the
+        //    property, an app that reports none must still be testable; ports are unique inside the process.
         'wait: while Instant::now() < deadline {
             if handle.is_finished() {
                 break; // bind failed (port taken in between): try another port
@@ -166,7 +169,9 @@ fn start(ops: &[Op], tag: &str) -> Result<Running, String> {
             match TcpStream::connect_timeout(&sa, Duration::from_millis(500)) {
                 Ok(probe) => {
                     let me = probe.local_addr().ok();
+                    let quiet = common::NO_EVENT_STARTS.load(std::sync::atomic::Ordering::Relaxed) >= 3;
                     let until = Instant::now() + Duration::from_secs(5);
+                    let mut polls = 0;
                     while Instant::now() < until {
                         match mrx.recv_timeout(Duration::from_millis(20)) {
                             Ok(ev) => {
@@ -177,6 +182,14 @@ fn start(ops: &[Op], tag: &str) -> Result<Running, String> {
                             }
                             Err(_) => {
                                 if handle.is_finished() {
+                                    break 'wait;
+                                }
+                                polls += 1;
+                                // no event (yet): after 0.5 s (at once, when this build has shown that it sends none)
+                                // look the listener up instead
+                                if (quiet || polls >= 25) && polls % 5 == 0 && common::listener_is_ours(port) {
+                                    common::NO_EVENT_STARTS.fetch_add(1, std::sync::atomic::Ordering::Relaxed);
+                                    ok = true;
                                     break 'wait;
                                 }
                             }
@@ -192,6 +205,7 @@ fn start(ops: &[Op], tag: &str) -> Result<Running, String> {
             return Ok(Running { port, tx, handle });
         }
         drop(tx);
+        common::release_port(port);
     }
     Err("could not start the app on a loopback port".into())
 }
@@ -210,12 +224,22 @@ fn stop(self) -> bool {
     }
     if r.handle.is_finished() {
         let _ = r.handle.join();
+        common::release_port(r.port);
         true
     } else {
         false
     }
 }
 
+}
+
+/// ROUTING_NO_MONITOR=1 (self-test of the harness): subscribe to nothing, as if the app reported no events.
+fn monitor_for(mtx: std::sync::mpsc::Sender<Event>) -> MonitorConfig {
+    if std::env::var("ROUTING_NO_MONITOR").is_ok() {
+        MonitorConfig::new(mtx)
+    } else {
+        MonitorConfig::new(mtx).with_subscription_to(EventType::ConnectionSuccess)
+    }
 }
 
 fn main() {
